@@ -80,7 +80,7 @@ theorem eq_update_iff (R C : Fin n → Bool) (b : Bool) :
       simp [Function.update_of_ne this]
     · funext j
       have : iw j.castSucc ≠ iw (Fin.last k) := fun h => (Fin.castSucc_lt_last j).ne (iw.injective h)
-      simp [Fin.init, Function.update_of_ne this]
+      simp [Fin.init]
   · rintro ⟨h1, h2, h3⟩
     funext x
     by_cases hx : ∃ a, iw a = x
@@ -113,8 +113,8 @@ theorem actMat_ctrlAct (u : Bool → Bool × ℝ) :
     by_cases h1 : AgreeOff iw R C
     · by_cases h2 : Fin.init (R ∘ iw) = Fin.init (C ∘ iw)
       · have hzr : Fin.init (R ∘ iw) = (fun _ : Fin k => false) := h2.trans hzi
-        simp only [h1, h2, hzi, hzr, true_and, if_true]
-      · simp only [h1, h2, false_and, and_false, true_and, if_false, if_true]
+        simp only [h1, h2, hzi, true_and, if_true]
+      · simp only [h1, h2, false_and, and_false, if_false, if_true]
     · simp only [h1, false_and, if_false]
   · have hzi : ¬ Fin.init (C ∘ iw) = (fun _ : Fin k => false) := fun h => hz ((init_eq_false_iff iw C).mp h)
     simp only [hz, if_false, res_ext]
@@ -124,8 +124,9 @@ theorem actMat_ctrlAct (u : Bool → Bool × ℝ) :
     by_cases h1 : AgreeOff iw R C
     · by_cases h2 : Fin.init (R ∘ iw) = Fin.init (C ∘ iw)
       · have hzr : ¬ Fin.init (R ∘ iw) = (fun _ : Fin k => false) := fun h => hzi (h2.symm.trans h)
-        simp only [h1, h2, hzi, hzr, true_and, if_true, if_false, splitCT, Function.comp, Matrix.one_apply, b2f_injective.eq_iff]
-      · simp only [h1, h2, false_and, and_false, true_and, if_false, if_true]
+        simp only [h1, h2, hzi, true_and, if_true, if_false, splitCT, Function.comp, Matrix.one_apply, b2f_injective.eq_iff]
+        simp
+      · simp only [h1, h2, false_and, and_false, if_false, if_true]
     · simp only [h1, false_and, if_false]
 
 end Bridge
@@ -135,7 +136,7 @@ end Bridge
 theorem flipBit_eq_update (bits : ℕ → Bool) (t : ℕ) : flipBit bits t = Function.update bits t (!bits t) := by
   funext x; by_cases h : x = t
   · subst h; simp [flipBit]
-  · simp [flipBit, h, Function.update_of_ne h]
+  · simp [flipBit, h]
 
 /-- the multi-controlled X emitted by the auxiliary construction is the controlled action of the bit flip -/
 theorem act_cx (ctrls : List ℕ) (t : ℕ) :
